@@ -87,11 +87,16 @@ def run(pid, module, cfg_text, env=None, workers=None, timeout=900, tag=None, si
         e.update({k: str(v) for k, v in env.items()})
     t0 = time.time()
     res = TlcResult()
-    try:
-        p = subprocess.run(cmd, env=e, cwd=SPEC, stdout=subprocess.PIPE, stderr=subprocess.STDOUT, timeout=timeout)
-    except subprocess.TimeoutExpired as ex:
-        subprocess.run(["pkill", "-f", meta], check=False)
-        raise Machinery("TLC timed out after %ss on %s" % (timeout, module))
+    for attempt in (1, 2):
+        try:
+            p = subprocess.run(cmd, env=e, cwd=SPEC, stdout=subprocess.PIPE, stderr=subprocess.STDOUT, timeout=timeout)
+        except subprocess.TimeoutExpired as ex:
+            subprocess.run(["pkill", "-f", meta], check=False)       # only this run (matched by its private metadir)
+            raise Machinery("TLC timed out after %ss on %s" % (timeout, module))
+        if p.returncode in (-9, -15, 137, 143) and attempt == 1:
+            shutil.rmtree(meta, ignore_errors=True)                  # killed from outside: run it once more
+            continue
+        break
     res.wall = time.time() - t0
     res.rc = p.returncode
     _parse(res, p.stdout.decode(errors="replace"))
